@@ -35,6 +35,7 @@ type C10Case struct {
 	Calls    []C10Call `json:"calls"`    // executed concurrently on one client
 	Handlers []string  `json:"handlers"` // methods the client registers a handler for
 	Real     bool      `json:"real"`
+	HErrs    []bool    `json:"herrs"` // cycled: the client's handler returns an error for this notification (must not disturb delivery)
 }
 
 var c10Methods = []string{"notifications/progress", "notifications/message", "notifications/custom-a", "custom/b", "x"}
@@ -77,6 +78,10 @@ func genC10(t *rapid.T) C10Case {
 		if rapid.IntRange(0, 2).Draw(t, "handler") != 0 {
 			c.Handlers = append(c.Handlers, m)
 		}
+	}
+	nh := rapid.IntRange(1, 4).Draw(t, "nherrs")
+	for i := 0; i < nh; i++ {
+		c.HErrs = append(c.HErrs, rapid.IntRange(0, 3).Draw(t, "herr") == 3)
 	}
 	return c
 }
@@ -193,6 +198,9 @@ func execC10(c C10Case) *Failure {
 			mu.Lock()
 			seen[ci] = append(seen[ci], s)
 			mu.Unlock()
+			if len(c.HErrs) > 0 && c.HErrs[int(s.seq)%len(c.HErrs)] {
+				return fmt.Errorf("handler does not like %s", tag)
+			}
 			return nil
 		})
 	}
